@@ -1448,16 +1448,16 @@ def turnOf (m : UnitMode) : Int := if m = .raw then 65536 else 360
 /-- **cycle increment.**  The prologue of `repeat n with v cycle …`: `incr` becomes a full turn
 — 65536 when the unit-mode register holds `raw`, else 360 — divided by the count `c` in the
 hidden counter, exactly (ℚ); with a count of 0 it becomes 0 and nothing faults. -/
-theorem run_cycleIncr (img : Image) (s : State) (pc : Nat) (vars : List (LoopVar × Val)) (h : Nat)
+theorem run_cycleIncr_val (img : Image) (s : State) (pc : Nat) (vars : List (LoopVar × Val)) (h : Nat)
     (rest : List Frame) (c : Rat) (fl : Bool) (m : UnitMode)
     (hs : s.status = .running) (hpc : s.pc = (pc : Int)) (hc : CodeAt img pc cycleTail)
     (hst : s.stack = .loop vars h :: rest) (hn : Num (getLV vars .counter) c fl)
     (hm : s.regs .unitMode = .mode m) :
-    ∃ k vars' R, run img k s =
-        { s with pc := (pc : Int) + 18, regs := R, stack := .loop vars' h :: rest } ∧
-      (∀ q, q ≠ .result → R q = s.regs q) ∧
-      Num (getLV vars' .incr) (if c = 0 then 0 else ((turnOf m : Int) : Rat) / c) (!decide (c = 0)) ∧
-      (∀ l, l ≠ .incr → getLV vars' l = getLV vars l) := by
+    ∃ k R, run img k s =
+        { s with pc := (pc : Int) + 18, regs := R,
+                 stack := .loop (setLV vars .incr
+                   (if c = 0 then .int 0 else .num (((turnOf m : Int) : Rat) / c))) h :: rest } ∧
+      (∀ q, q ≠ .result → R q = s.regs q) := by
   let R0 : Reg → Val := fun q => if q = .result then .bool (decide (c = 0)) else s.regs q
   let sA : State := { s with pc := (pc : Int) + 4, regs := R0 }
   have heq : binVal .eq (getLV vars .counter) (.int 0) = some (.bool (decide (c = 0))) := by
@@ -1479,11 +1479,9 @@ theorem run_cycleIncr (img : Image) (s : State) (pc : Nat) (vars : List (LoopVar
         ({ s with pc := (pc : Int) + 18, regs := R0, stack := .loop (setLV vars .incr (.int 0)) h :: rest } : State) := by
       rw [run_jump_always img _ (pc + 6) 12 (by exact hs) (by simp) (hc.get 6 (by decide))]
       apply State.ext' <;> first | rfl | (simp; omega)
-    refine ⟨4 + (1 + (1 + 1)), setLV vars .incr (.int 0), R0, run_trans hA (run_trans hJ (run_trans hM hK)),
-      ?_, ?_, ?_⟩
+    refine ⟨4 + (1 + (1 + 1)), R0, ?_, ?_⟩
+    · rw [if_pos h0]; exact run_trans hA (run_trans hJ (run_trans hM hK))
     · intro q hq; simp [R0, hq]
-    · rw [getLV_setLV_self]; simpa [h0] using Num.int 0
-    · intro l hl; exact getLV_setLV_other _ _ _ _ hl
   · have hJ : run img 1 sA = ({ s with pc := (pc : Int) + 7, regs := R0 } : State) := by
       rw [run_jump_ifFalse img sA (pc + 4) 3 (by exact hs) (by simp [sA]) (hc.get 4 (by decide))]
       apply State.ext' <;> first | rfl | (simp [sA, R0, h0, Val.truthy]; omega) | (simp [sA, R0, h0, Val.truthy])
@@ -1541,13 +1539,27 @@ theorem run_cycleIncr (img : Image) (s : State) (pc : Nat) (vars : List (LoopVar
       simp only [List.length_cons, List.length_nil] at this
       rw [this]
       apply State.ext' <;> first | rfl | (simp [sC]; omega)
-    refine ⟨4 + (1 + (4 + (kT + 3))), setLV vars .incr iv, R1,
-      run_trans hA (run_trans hJ (run_trans hB (run_trans hT hD))), ?_, ?_, ?_⟩
+    refine ⟨4 + (1 + (4 + (kT + 3))), R1, ?_, ?_⟩
+    · rw [if_neg h0]; exact run_trans hA (run_trans hJ (run_trans hB (run_trans hT hD)))
     · intro q hq; simp [R1, R0, hq]
-    · rw [getLV_setLV_self]
-      simp only [h0, if_false, decide_false, Bool.not_false, iv]
-      exact Num.num _
-    · intro l hl; exact getLV_setLV_other _ _ _ _ hl
+
+theorem run_cycleIncr (img : Image) (s : State) (pc : Nat) (vars : List (LoopVar × Val)) (h : Nat)
+    (rest : List Frame) (c : Rat) (fl : Bool) (m : UnitMode)
+    (hs : s.status = .running) (hpc : s.pc = (pc : Int)) (hc : CodeAt img pc cycleTail)
+    (hst : s.stack = .loop vars h :: rest) (hn : Num (getLV vars .counter) c fl)
+    (hm : s.regs .unitMode = .mode m) :
+    ∃ k vars' R, run img k s =
+        { s with pc := (pc : Int) + 18, regs := R, stack := .loop vars' h :: rest } ∧
+      (∀ q, q ≠ .result → R q = s.regs q) ∧
+      Num (getLV vars' .incr) (if c = 0 then 0 else ((turnOf m : Int) : Rat) / c) (!decide (c = 0)) ∧
+      (∀ l, l ≠ .incr → getLV vars' l = getLV vars l) := by
+  obtain ⟨k, R, hrun, hR⟩ := run_cycleIncr_val img s pc vars h rest c fl m hs hpc hc hst hn hm
+  refine ⟨k, _, R, hrun, hR, ?_, fun l hl => getLV_setLV_other _ _ _ _ hl⟩
+  rw [getLV_setLV_self]
+  by_cases h0 : c = 0
+  · simpa [h0] using Num.int 0
+  · simp only [h0, if_false, decide_false, Bool.not_false]
+    exact Num.num _
 
 
 /-! ## `repeat n with v from a to b` -/
